@@ -14,8 +14,14 @@ def load():
     return m.BENIGN
 
 
+def load_ext():
+    """behaviour-preserving refactorings written by independent sub-agents (mutants/benign_ext/*.patch, with a .md note each)"""
+    d = os.path.join(VERIF, "mutants", "benign_ext")
+    return [{"name": f[:-6], "ext": True} for f in sorted(os.listdir(d)) if f.endswith(".patch")] if os.path.isdir(d) else []
+
+
 def run_one(b, with_tests=False):
-    patch = os.path.join(VERIF, "mutants", "benign", b["name"] + ".patch")
+    patch = os.path.join(VERIF, "mutants", "benign_ext" if b.get("ext") else "benign", b["name"] + ".patch")
     res, err = mutate.run(patch, PROPS)
     if res is None:
         return b["name"], "patch-does-not-apply", {}
@@ -44,7 +50,7 @@ def main():
     ap.add_argument("--names"); ap.add_argument("--jobs", type=int, default=6); ap.add_argument("--with-tests", action="store_true")
     a = ap.parse_args()
     names = set(a.names.split(",")) if a.names else None
-    bs = [b for b in load() if names is None or b["name"] in names]
+    bs = [b for b in load() + load_ext() if names is None or b["name"] in names]
     bad = 0
     with concurrent.futures.ThreadPoolExecutor(max_workers=a.jobs) as ex:
         for name, status, fired in ex.map(lambda b: run_one(b, a.with_tests), bs):
